@@ -567,6 +567,42 @@ func TestTriples(t *testing.T) {
 	ev.R.Space("(parent kind, operand position, child kind) triples incl. value nodes, x {built, json, text}; value-sensitive arithmetic and boolean nestings", count)
 }
 
+// TestUnaryChains: 1..8 directly nested prefix operators (every !/- mix up to length 4, the uniform and alternating ones
+// beyond) over a variable, literals of both signs, a member access and a product. The published grammar allows four
+// prefix operators per Unary; cedar-go's printer writes a nested chain as a bare run, which its parser has to take back.
+func TestUnaryChains(t *testing.T) {
+	if !ev.First() {
+		return
+	}
+	fail := tableFail(t)
+	worlds := gen.FixedWorlds()
+	count := 0
+	leaves := []func() *ir.Expr{func() *ir.Expr { return ir.Var("context") }, func() *ir.Expr { return ir.Lit(ir.Long(5)) }, func() *ir.Expr { return ir.Lit(ir.Long(-5)) },
+		func() *ir.Expr { return ir.Lit(ir.Bool(true)) }, func() *ir.Expr { return ir.Access(ir.Var("context"), "k") }, func() *ir.Expr { return ir.Bin(ir.OpMul, ir.Lit(ir.Long(2)), ir.Lit(ir.Long(-3))) }}
+	for _, leaf := range leaves {
+		for n := 1; n <= 8; n++ {
+			for mask := 0; mask < 1<<n; mask++ {
+				if n > 4 && mask != 0 && mask != 1<<n-1 && mask != 0x55&(1<<n-1) && mask != 0xaa&(1<<n-1) && mask != 1 && mask != 1<<(n-1) {
+					continue
+				}
+				e := leaf()
+				for i := 0; i < n; i++ {
+					if mask>>i&1 == 1 {
+						e = ir.Un(ir.OpNeg, e)
+					} else {
+						e = ir.Un(ir.OpNot, e)
+					}
+				}
+				count++
+				p := condPolicy(e)
+				run(&Case{Policy: p, Source: "built", Worlds: worlds}, "unary-chain", fail, fmt.Sprintf("chain-length:%d", n))
+				run(&Case{Policy: p, Source: "json", Worlds: worlds}, "unary-chain", fail)
+			}
+		}
+	}
+	ev.R.Space("prefix-operator chains (length 1..8) over variable / literals / member / product, built and from JSON", 2*count)
+}
+
 // TestStringTable: single characters of every class in every string position.
 func TestStringTable(t *testing.T) {
 	fail := tableFail(t)
